@@ -677,6 +677,8 @@ def scattercat(ax, x, y, z, ncats=5, cuts=None, cmap="PiYG",
                 cuts = list(z.quantile(qq))
 
             # make sure the cuts cover the full range
+            # (working on a copy of the bounds provided)
+            cuts = list(cuts)
             if cuts[0] >= z.min():
                 cuts[0] = z.min()-eps
             if cuts[-1] <= z.max():
